@@ -9,17 +9,18 @@ From Otto Require Import Common.Double C05.Fp C05.Spec C05.Model C05.Eval C05.Pr
 Import ListNotations.
 Open Scope Z_scope.
 
-(* 9.5-9.7: for every double whose truncation fits int64 (and for NaN and the
-   infinities) otto's int64 detour computes ToInt32 / ToUint32 / ToUint16 *)
-Theorem C05_toInt32 : forall d, in_int64 d -> m_to_int32 d = to_int32 d.
+(* 9.5-9.7: on every bit pattern (NaN, infinities, zeros, every finite double of any magnitude)
+   otto's int32/uint32/uint16(int64(math.Mod(x, 2^32))) is ToInt32 / ToUint32 / ToUint16.
+   (Before /repo commit 02e659b this held only below 2^63.) *)
+Theorem C05_toInt32 : forall d, m_to_int32 d = to_int32 d.
 Proof. exact m_to_int32_correct. Qed.
 Print Assumptions C05_toInt32.
 
-Theorem C05_toUint32 : forall d, in_int64 d -> m_to_uint32 d = to_uint32 d.
+Theorem C05_toUint32 : forall d, m_to_uint32 d = to_uint32 d.
 Proof. exact m_to_uint32_correct. Qed.
 Print Assumptions C05_toUint32.
 
-Theorem C05_toUint16 : forall d, in_int64 d -> m_to_uint16 d = to_uint16 d.
+Theorem C05_toUint16 : forall d, m_to_uint16 d = to_uint16 d.
 Proof. exact m_to_uint16_correct. Qed.
 Print Assumptions C05_toUint16.
 
@@ -30,17 +31,6 @@ Theorem C05_toInt_residues : forall d,
   (0 <= to_uint16 d < 2 ^ 16 /\ (to_uint16 d - pos_int d) mod 2 ^ 16 = 0).
 Proof. intro d. split; [apply to_int32_char | split; [apply to_uint32_char | apply to_uint16_char]]. Qed.
 Print Assumptions C05_toInt_residues.
-
-(* ... and beyond the int64 range the three conversions of otto are constantly 0:
-   the deviation class of finding C05-toint32 is exactly |trunc x| >= 2^63 with a non-zero residue *)
-Theorem C05_toInt_beyond_int64 : forall d n, trunc_int d = Some n -> (n < - 2 ^ 63 \/ 2 ^ 63 <= n) ->
-  m_to_int32 d = 0 /\ m_to_uint32 d = 0 /\ m_to_uint16 d = 0.
-Proof. exact m_to_int_beyond. Qed.
-Print Assumptions C05_toInt_beyond_int64.
-
-Theorem C05_toInt32_ge_2p63_refuted : exists d, m_to_int32 d <> to_int32 d.
-Proof. exists 0x43E0000000000001. vm_compute. discriminate. Qed.
-Print Assumptions C05_toInt32_ge_2p63_refuted.
 
 (* 9.2 *)
 Theorem C05_toBoolean : forall p,
@@ -107,25 +97,6 @@ Theorem C05_divide_is_ieee : forall l r, 0 <= l < 2 ^ 64 -> 0 <= r < 2 ^ 64 -> m
 Proof. exact m_divide_is_fdiv. Qed.
 Print Assumptions C05_divide_is_ieee.
 
-(* 11.6.1: otto converts the left operand of + before it reads the right variable.
-   The two orders give the same result, state and call log for every continuation
-   whenever the left operand's conversion completes normally and leaves the
-   variables as they were (e.g. every method it calls is [meth_pure]);
-   C05_plus_order_refuted shows the hypothesis is needed *)
-Theorem C05_plus_operand_order : forall A (k : prim -> value -> M A) v n st p st',
-  to_primitive 0 v st = (Ok p, st') ->
-  vars st' = vars st ->
-  nth_error (vars st) n <> None ->
-  (lp <- to_primitive 0 v ;; rv <- getvar n ;; k lp rv) st =
-  (rv <- getvar n ;; lp <- to_primitive 0 v ;; k lp rv) st.
-Proof. exact plus_getvalue_commutes. Qed.
-Print Assumptions C05_plus_operand_order.
-
-Theorem C05_pure_method_keeps_variables : forall h w m st, meth_pure m ->
-  vars (snd (call_meth h w m st)) = vars st.
-Proof. exact call_meth_vars. Qed.
-Print Assumptions C05_pure_method_keeps_variables.
-
 (* otto's deviations, as refutations of "model = spec" with concrete witnesses *)
 Definition units_inf : list Z := [105; 110; 102].                      (* "inf" *)
 Definition units_1_0 : list Z := [49; 95; 48].                         (* "1_0" *)
@@ -149,15 +120,16 @@ Theorem C05_strcmp_refuted : exists a b, m_str_lt a b <> units_lt a b.
 Proof. exists [0xFFFF], [0xD800; 0xDC00]. vm_compute. discriminate. Qed.
 Print Assumptions C05_strcmp_refuted.
 
-(* var b = 2, a = {valueOf: function(){ b = 10; return 1 }}; a + b *)
+(* var b = 2, a = {valueOf: function(){ b = 10; return 1 }}; a + b: GetValue(b) comes before
+   ToPrimitive(a) (ES5 11.6.1; otto since commit 0c8f777): both dialects give 3 on the former witness *)
 Definition order_obj : value :=
-  VO (Build_obj 1 0 (MDo (Some (1%nat, PNum 0x4024000000000000)) (MPrim (PNum 0x3FF0000000000000))) MNone [] [] (-1)).
-Theorem C05_plus_order_refuted : exists vs e, run model_d [] vs e <> run spec_d [] vs e.
-Proof.
-  exists [order_obj; VP (PNum 0x4000000000000000)], (EBin 0 (EVar 0) (EVar 1)).
-  vm_compute. discriminate.
-Qed.
-Print Assumptions C05_plus_order_refuted.
+  VO (Build_obj 1 0 (MDo (Some (1%nat, PNum 0x4024000000000000)) (MPrim (PNum 0x3FF0000000000000))) MNone [] [90] (-1)).
+Example C05_plus_order_witness :
+  let vs := [order_obj; VP (PNum 0x4000000000000000)] in
+  let e := EBin 0 (EVar 0) (EVar 1) in
+  run model_d [] vs e = run spec_d [] vs e /\
+  run spec_d [] vs e = Some (0, OP (PNum 0x4008000000000000), [OO 1; OP (PNum 0x4024000000000000)], [2]).
+Proof. vm_compute. split; reflexivity. Qed.
 
 (* var x = 1; x += (x = 5, 1): the left operand is read first (ES5 11.13.2; otto since commit 3657e0a),
    so the two dialects agree on the former witness and the result is 2 *)
@@ -175,16 +147,19 @@ Proof. exists 9007199254740993. vm_compute. discriminate. Qed.
 Print Assumptions C05_int_repr_tostring_refuted.
 
 (* non-vacuity: the guards are met, and the Spec functions compute the textbook values *)
-Example C05_in_int64_met : in_int64 0x41DFFFFFFFC00000 /\ to_int32 0x41E0000000000000 = - 2 ^ 31.
-Proof. vm_compute. split; [split; [discriminate | reflexivity] | reflexivity]. Qed.
-Example C05_beyond_met : trunc_int 0x43E0000000000001 = Some (2 ^ 63 + 2048) /\ to_int32 0x43E0000000000001 = 2048.
-Proof. vm_compute. split; reflexivity. Qed.
+Example C05_toInt32_samples :
+  to_int32 0x41E0000000000000 = - 2 ^ 31 /\                 (* 2^31 *)
+  m_to_int32 0x43E0000000000001 = 2048 /\                   (* 2^63 + 2048, the former witness of C05-toint32 *)
+  m_to_uint32 0xC3E0000000000001 = 2 ^ 32 - 2048 /\
+  m_to_uint16 0x7FF0000000000000 = 0.
+Proof. vm_compute. repeat split; reflexivity. Qed.
 Example C05_divide_range_met : 0 <= 0x3FF0000000000000 < 2 ^ 64 /\ fdiv 0x3FF0000000000000 0x4008000000000000 = 0x3FD5555555555555.
 Proof. vm_compute. split; [split; [discriminate | reflexivity] | reflexivity]. Qed.
+(* 8.12.8: valueOf returning an object falls through to toString; the call log records both *)
 Definition st0 : state := {| vars := [VP PNull]; log := []; tbl := []; protos := [] |}.
 Definition pure_obj : value :=
   VO (Build_obj 1 0 (MDo None MObj) (MDo None (MPrim (PStr [120]))) [] [90] (-1)).
-Example C05_plus_operand_order_met :
+Example C05_default_value_sample :
   to_primitive 0 pure_obj st0 = (Ok (PStr [120]), {| vars := [VP PNull]; log := [3; 2]; tbl := []; protos := [] |}).
 Proof. vm_compute. reflexivity. Qed.
 
@@ -208,13 +183,12 @@ Example C05_prototype_is_not_instance :
   = Some (0, OP (PBool false), [], []).
 Proof. vm_compute. reflexivity. Qed.
 
-(* (new F) instanceof F.bind(null): 15.3.4.5.3 delegates to the target *)
-Theorem C05_instanceof_bound_refuted : exists ps vs e, run model_d ps vs e <> run spec_d ps vs e.
-Proof.
-  exists [proto91], [], (EBin 20 (ELit child1) (ELit (VO (Build_obj 2 4 MNone MNone [] [89; 90] 91)))).
-  vm_compute. discriminate.
-Qed.
-Print Assumptions C05_instanceof_bound_refuted.
+(* (new F) instanceof F.bind(null): 15.3.4.5.3 delegates to the target (otto since commit ea21c58) *)
+Example C05_instanceof_bound_witness :
+  let e := EBin 20 (ELit child1) (ELit (VO (Build_obj 2 4 MNone MNone [] [89; 90] 91))) in
+  run model_d [proto91] [] e = run spec_d [proto91] [] e /\
+  run spec_d [proto91] [] e = Some (0, OP (PBool true), [], []).
+Proof. vm_compute. split; reflexivity. Qed.
 
 Example C05_strings_met :
   Forall no_high [0x61; 0xFFFF; 0xE9] /\ Forall unit_ok [0xD800; 0xDC00] /\ code_points [0xD800; 0xDC00] = [0x10000].
